@@ -176,6 +176,17 @@ func (nt *Net) runSolo() *Result {
 
 // SoloRoundScripts lists the input groups the harness can play in one round.
 func SoloRoundScripts(r int64, reduced bool) [][]SoloStep {
+	return soloRoundScripts(r, reduced, false)
+}
+
+// SoloRoundScriptsLate additionally prefixes every script of round r > 0 with late
+// prevotes of an earlier round q < r (all three other validators for A, or for B):
+// an old polka that completes only now must not unlock a later lock.
+func SoloRoundScriptsLate(r int64, reduced bool) [][]SoloStep {
+	return soloRoundScripts(r, reduced, true)
+}
+
+func soloRoundScripts(r int64, reduced bool, late bool) [][]SoloStep {
 	props := []string{"", "A", "B"}
 	pv := []string{"---", "AAA", "BBB", "NNN", "AA-", "BB-", "ABN", "AN-", "A--"}
 	pc := []string{"---", "NNN", "AAA", "BBB", "ABN", "AA-", "N--"}
@@ -211,6 +222,16 @@ func SoloRoundScripts(r int64, reduced bool) [][]SoloStep {
 					}
 					s = append(s, SoloStep{Kind: "timeout", Round: r, Arg: "2"}, SoloStep{Kind: "timeout", Round: r, Arg: "3"})
 					out = append(out, s)
+				}
+			}
+		}
+	}
+	if late && r > 0 {
+		base := out
+		for q := int64(0); q < r; q++ {
+			for _, v := range []string{"AAA", "BBB"} {
+				for _, sc := range base {
+					out = append(out, append([]SoloStep{{Kind: "prevotes", Round: q, Arg: v}}, sc...))
 				}
 			}
 		}
